@@ -6,6 +6,7 @@ import AdaVerif.Lemmas.KernIs4
 import AdaVerif.Lemmas.Kern6Ser
 import AdaVerif.Lemmas.Kern6Parse
 import AdaVerif.Lemmas.Kern6Main
+import AdaVerif.Lemmas.HostParse
 /-
 C10 — Hosts are classified and canonicalised per the Standard; host kind is truthful.
 
@@ -76,6 +77,75 @@ theorem kernel_ipv6_host (input : Bytes) (a : List Nat) (h : parseIpv6 input = s
     (hl : a.length = 8) (hb : ∀ x ∈ a, x < 65536) :
     serIpv6 a = [0x5B] ++ ipv6Serialize a ++ [0x5D] ∧ ipv6Parse input = some a :=
   ⟨K6.serIpv6_eq a hl hb, by rw [← K6.parseIpv6_eq]; exact h⟩
+
+/-! ### parse_host
+
+`Model/HostParse.lean` transcribes `url::parse_host` (with `parse_opaque_host` and `unicode::to_ascii`) and
+`url_aggregator::parse_host` (a different text: it scans the input once for "forbidden or upper case" and has a
+lower-casing route of its own); both are run against the real functions on every check.  `ada::idna::to_ascii` is a
+parameter; what is assumed of it is stated for the one domain it is asked about (`IdnaAt`: ASCII lower-case output and
+the Standard's rule that an all-ASCII domain without an ACE label is just lower-cased - decided per input by C06). -/
+
+open AdaVerif.Model.HostParse AdaVerif.Lemmas.HP in
+/-- **`url::parse_host` and `url_aggregator::parse_host` are the Standard's host parser**: they fail exactly when it
+    fails, store the serialisation of the host it produces (IPv6 in brackets and compressed, IPv4 as dotted decimal,
+    domains lower-cased / through domain-to-ASCII, opaque hosts percent-encoded), and `host_type` is the kind of that
+    host - through the pure-decimal shortcut, the "nothing forbidden, no xn-" shortcuts and the `to_ascii` route alike -/
+theorem parse_host_is_host_parser (idna : Idna) (special : Bool) (input : Bytes) (hne : input ≠ [])
+    (hid : IdnaAt idna (percentDecode input)) :
+    parseHost idna special input = (hostParse idna input (!special)).map viewH ∧
+    parseHostA idna special input = (hostParse idna input (!special)).map viewH :=
+  ⟨parseHost_eq idna special input hne hid, by rw [parseHostA_eq]; exact parseHost_eq idna special input hne hid⟩
+
+open AdaVerif.Model.HostParse AdaVerif.Lemmas.HP in
+/-- **the host kind is truthful**: `host_type` is IPV4 / IPV6 exactly when the Standard's parser produced an IPv4 / IPv6
+    address for this text -/
+theorem host_kind_truthful (idna : Idna) (special : Bool) (input : Bytes) (hne : input ≠ [])
+    (hid : IdnaAt idna (percentDecode input)) :
+    (parseHost idna special input).map (·.2) = (hostParse idna input (!special)).map kindOf := by
+  rw [parseHost_eq idna special input hne hid]
+  cases hostParse idna input (!special) <;> simp [viewH]
+
+open AdaVerif.Model.HostParse AdaVerif.Lemmas.HP in
+/-- the two C++ texts take the same decisions (whatever the IDNA function) -/
+theorem parse_host_twins (idna : Idna) (special : Bool) (input : Bytes) :
+    parseHostA idna special input = parseHost idna special input := parseHostA_eq idna special input
+
+/-- an IDNA function that satisfies `IdnaAt` everywhere (it refuses non-ASCII domains): the hypothesis is satisfiable -/
+def asciiIdna : Idna := ⟨fun d => if isAsciiBytes d then some (d.map toLowerByte) else none⟩
+theorem lower_ascii : ∀ b : UInt8, b.toNat < 128 → (toLowerByte b).toNat < 128 ∧ isAsciiUpper (toLowerByte b) = false := by
+  apply forall_uint8_of_fin; decide +kernel
+open AdaVerif.Lemmas.HP in
+theorem asciiIdna_ok (d : Bytes) : IdnaAt asciiIdna d := by
+  refine ⟨?_, ?_, ?_⟩
+  · intro o ho b hb
+    simp only [asciiIdna] at ho
+    split at ho
+    · rename_i ha
+      injection ho with ho; subst ho
+      obtain ⟨x, hx, rfl⟩ := List.mem_map.mp hb
+      simp only [isAsciiBytes, List.all_eq_true, decide_eq_true_eq] at ha
+      exact (lower_ascii x (ha x hx)).1
+    · cases ho
+  · intro o ho b hb
+    simp only [asciiIdna] at ho
+    split at ho
+    · rename_i ha
+      injection ho with ho; subst ho
+      obtain ⟨x, hx, rfl⟩ := List.mem_map.mp hb
+      simp only [isAsciiBytes, List.all_eq_true, decide_eq_true_eq] at ha
+      exact (lower_ascii x (ha x hx)).2
+    · cases ho
+  · intro ha _
+    simp [asciiIdna, ha]
+open AdaVerif.Model.HostParse in
+example : parseHost asciiIdna true (ofStr "EXAMPLE.com") = some (ofStr "example.com", 0) := by decide +kernel
+open AdaVerif.Model.HostParse in
+example : parseHostA asciiIdna true (ofStr "0X7F.1") = some (ofStr "127.0.0.1", 1) := by decide +kernel
+open AdaVerif.Model.HostParse in
+example : parseHost asciiIdna true (ofStr "[1::0:0:2]") = some (ofStr "[1::2]", 2) := by decide +kernel
+open AdaVerif.Model.HostParse in
+example : parseHost asciiIdna true (ofStr "a%20b") = none := by decide +kernel
 
 open AdaVerif.Model.HostKernels in
 /-- worked instances (kernel-evaluated) -/
